@@ -170,12 +170,19 @@ SimCase(h, p) == LET s == SentFor(h, p)
 LimCase(ls, p) == [mode |-> "limits", hs |-> <<>>, plan |-> p, lims |-> ls, msgs |-> <<>>, sent |-> <<>>, ret |-> <<>>,
                    raised |-> \E i \in DOMAIN p : p[i].cmd = "set" /\
                                  \E j \in DOMAIN ls : ls[j].dev = p[i].obj /\ ls[j].has /\ (p[i].val < ls[j].lo \/ p[i].val > ls[j].hi)]
-\* (sequences of input pairs mapped to case records: no set of large records has to be normalized)
-SimInputs == SetToSeq(UNION {{<<h, p>> : p \in SimPlansFor(h)} : h \in Heads})
-LimInputs == IF LimPlan >= 0 THEN SetToSeq(LimSets \X LimPlans) ELSE <<>>
+\* (TLC compares deeply nested values slowly: the cases are enumerated through pairs of INDICES into sequences of handler
+\* lists / plans / limit sets, so that only small sets and sets of integer pairs have to be normalized)
+HeadSeq == SetToSeq(Heads)
+PlanSeqByLen == [n \in 0..MaxH |-> SetToSeq((IF n <= HA THEN PlansA ELSE {}) \cup (IF n <= HB THEN PlansB ELSE {})
+                                                \cup (IF n <= HC THEN PlansC ELSE {}))]
+PlanSeqFor(i) == PlanSeqByLen[Len(HeadSeq[i])]
+SimInputs == SetToSeq(UNION {{<<i, j>> : j \in 1..Len(PlanSeqFor(i))} : i \in 1..Len(HeadSeq)})
+LimSetSeq == SetToSeq(LimSets)
+LimPlanSeq == SetToSeq(LimPlans)
+LimInputs == IF LimPlan >= 0 THEN SetToSeq((1..Len(LimSetSeq)) \X (1..Len(LimPlanSeq))) ELSE <<>>
 DumpCases ==
     TLCGet("stats").generated >= 0 /\
     ndJsonSerialize(IOEnv.CASES_OUT,
-        [i \in 1..Len(SimInputs) |-> SimCase(SimInputs[i][1], SimInputs[i][2])]
-        \o [i \in 1..Len(LimInputs) |-> LimCase(LimInputs[i][1], LimInputs[i][2])])
+        [k \in 1..Len(SimInputs) |-> SimCase(HeadSeq[SimInputs[k][1]], PlanSeqFor(SimInputs[k][1])[SimInputs[k][2]])]
+        \o [k \in 1..Len(LimInputs) |-> LimCase(LimSetSeq[LimInputs[k][1]], LimPlanSeq[LimInputs[k][2]])])
 =============================================================================
